@@ -571,6 +571,10 @@ func (w *World) StateKey(symmetry bool) string {
 		next++
 	}
 	fmt.Fprintf(&sb, "def=%d sd=%v|", w.DefIdx, d.ShuttingDown)
+	if d.PersistPending > 0 {
+		// a buffered save request: the persist loop will save once more when its pause ends
+		fmt.Fprintf(&sb, "persist-pending|")
+	}
 	for _, j := range d.Jobs {
 		r := ren[j.Idx]
 		if r == 0 {
@@ -585,6 +589,15 @@ func (w *World) StateKey(symmetry bool) string {
 				cls = "ge"
 			}
 			fmt.Fprintf(&sb, " w=%s", cls)
+		}
+		if rp := w.maxRetentionPeriod(j.Pipeline); rp > 0 {
+			// a job's age relative to the retention period (of any definition of its pipeline in this configuration) decides
+			// what a save does with it once it has finished
+			age := now - j.Created
+			if age > rp {
+				age = rp + time.Minute
+			}
+			fmt.Fprintf(&sb, " age=%d", int(age/time.Minute))
 		}
 		sb.WriteString("[")
 		for _, t := range j.Tasks {
@@ -625,9 +638,17 @@ func (w *World) StateKey(symmetry bool) string {
 		}
 	}
 	// mock state: parked runs and cancelled runners per (renamed) job
+	orphans := 0
 	for _, m := range w.Mocks {
 		r := ren[m.job]
 		if r == 0 {
+			if d.Job(m.job) == nil {
+				for _, rs := range m.runs {
+					if rs.parked && !rs.exited {
+						orphans++ // a task still executing for a job the runner no longer knows
+					}
+				}
+			}
 			continue
 		}
 		fmt.Fprintf(&sb, "M%d:x=%v", r, m.cancelled)
@@ -635,6 +656,9 @@ func (w *World) StateKey(symmetry bool) string {
 			fmt.Fprintf(&sb, " %s:p=%v,d=%v,e=%v", rs.task, rs.parked, rs.decided, rs.exited)
 		}
 		sb.WriteString("|")
+	}
+	if orphans > 0 {
+		fmt.Fprintf(&sb, "orphan-runs=%d|", orphans)
 	}
 	// pending timers as offsets from now, by owner job is implicit in HasTimer; keep the multiset
 	var offs []string
@@ -646,6 +670,10 @@ func (w *World) StateKey(symmetry bool) string {
 	// live threads that are not pollers/mock runs (e.g. something stuck)
 	for _, t := range w.S.Live() {
 		sb.WriteString(" th:" + t.Tag + "@" + t.Kind().String())
+		if t.Kind() == vsched.OpSleep {
+			// a sleeper (the persist loop between a request and its save) wakes at a definite time
+			fmt.Fprintf(&sb, "+%d", t.SleepUntil()-int64(now))
+		}
 	}
 	return sb.String()
 }
@@ -679,4 +707,17 @@ func panicOrigin(stack string) string {
 		return "harness: " + l
 	}
 	return "unknown"
+}
+
+func (w *World) maxRetentionPeriod(pipeline string) time.Duration {
+	var m time.Duration
+	for _, d := range w.Opts.Defs {
+		if d == nil {
+			continue
+		}
+		if pd, ok := d.Pipelines[pipeline]; ok && pd.RetentionPeriod > m {
+			m = pd.RetentionPeriod
+		}
+	}
+	return m
 }
